@@ -53,6 +53,8 @@ DateSels ==
    <<DRange(B0(Ea(-1)), Bd(Ea(-1), 0, 0, 10))>>, <<DRange(Bd(Ea(-1), 0, 0, -2), B0(Dt(-1, 6, 1)))>>,
    <<DRange(Bd(Dt(-1, 5, 1), 1, 0, 0), Bd(Dt(-1, 9, 30), -1, 4, 0))>>,
    <<DRange(B0(Dt(-1, 1, 31)), B0(Dt(-1, 2, 29)))>>,
+   \* whole months written as dates: the last day of February is not the same day every year
+   <<DRange(B0(Dt(-1, 1, 1)), B0(Dt(-1, 2, 28)))>>, <<DRange(B0(Dt(-1, 2, 1)), B0(Dt(-1, 2, 29)))>>,
    <<DPlus(B0(Dt(-1, 9, 1)))>>, <<DPlus(B0(Dt(2019, 9, 1)))>>, <<DPlus(Bd(Dt(-1, 9, 1), 0, 0, 1))>>,
    <<DDaynum(B0(Dt(-1, 5, 15)), B0(Dt(-1, 5, 31)))>>, <<DDaynum(B0(Dt(-1, 5, 15)), B0(Dt(-1, 6, 1)))>>,
    <<DDaynum(B0(Dt(-1, 12, 28)), B0(Dt(-1, 1, 5)))>>, <<DDaynum(B0(Dt(2021, 12, 28)), B0(Dt(2022, 1, 5)))>>,
@@ -103,7 +105,10 @@ TimeSels ==
    <<Sp(Ev("sunrise", 60), Ev("sunset", -30))>>, <<Sp(Ev("dusk", -90), Fx(1500))>>,
    <<SpF(Fx(600), Fx(1440), "plus", -1)>>, <<SpF(Fx(600), Fx(720), "rangeplus", -1)>>, <<SpF(Ev("sunset", 0), Fx(1440), "plus", -1)>>,
    <<SpF(Fx(600), Fx(960), "repeat", 30)>>, <<SpF(Fx(600), Fx(960), "repeat", 45)>>, <<SpF(Fx(600), Fx(960), "repeat_hm", 90)>>,
-   <<SpF(Fx(480), Fx(1080), "repeat_hm", 120)>>, <<SpF(Fx(600), Fx(960), "repeat_hm", 45)>>, <<SpF(Fx(0), Fx(1440), "repeat_hm", 601)>>, <<Sp(Fx(600), Fx(720)), SpF(Fx(840), Fx(1440), "plus", -1)>>}
+   <<SpF(Fx(480), Fx(1080), "repeat_hm", 120)>>, <<SpF(Fx(600), Fx(960), "repeat_hm", 45)>>, <<SpF(Fx(0), Fx(1440), "repeat_hm", 601)>>,
+   \* "24:00" is a production of its own in hour_minutes (matched as a whole): it is written wherever hour_minutes is referenced -
+   \* as a repetition interval (R23: parsing it panicked) and as the offset of a sun event
+   <<SpF(Fx(600), Fx(960), "repeat_hm", 1440)>>, <<Sp(Ev("dawn", 1440), Fx(1500))>>, <<Sp(Fx(600), Fx(720)), SpF(Fx(840), Fx(1440), "plus", -1)>>}
 KindWords == {"", "open", "closed", "unknown"}
 Comments == {"", "on appointment"}
 
